@@ -11,8 +11,9 @@ import time
 
 VERIF = os.path.dirname(os.path.dirname(os.path.abspath(__file__)))
 REPO = os.environ.get("VERIF_REPO", "/repo")
-BUILD = os.path.join(VERIF, "build")
-VX = os.path.join(BUILD, "vx-target", "release", "vx")
+TOOLS = os.path.join(VERIF, "build")  # tool binaries (vx, replay) built by setup.sh
+BUILD = os.environ.get("VERIF_BUILD", TOOLS)  # generated slices / logs (a scratch dir for self-tests)
+VX = os.path.join(TOOLS, "vx-target", "release", "vx")
 sys.path.insert(0, VERIF)
 import props  # noqa: E402  (per-property configuration)
 
@@ -29,6 +30,7 @@ VERIF_MSG = [
     "panic",
     "possible bit shift underflow/overflow",
     "recommendation not met",
+    "unable to prove",
 ]
 UNDECIDED_MSG = ["Resource limit", "rlimit", "timed out", "out of memory"]
 
@@ -39,7 +41,10 @@ def log(*a):
 
 def crate_dirs():
     """resolve registry sources of external crates at the version pinned by /repo/Cargo.lock"""
-    lock = open(os.path.join(REPO, "Cargo.lock")).read()
+    lp = os.path.join(REPO, "Cargo.lock")
+    if not os.path.exists(lp):  # scratch worktrees used by the self-tests do not carry the (untracked) lock file
+        lp = "/repo/Cargo.lock"
+    lock = open(lp).read()
     out = {}
     for name in ("rapid_time", "rapid_solve"):
         m = re.search(r'name = "%s"\nversion = "([^"]+)"' % name, lock)
@@ -275,7 +280,7 @@ def verify_slice(name, tier):
     r["canaries"] = ncan
     if ncan and not r["undecided"]:
         text = open(sl["canary_path"]).read()
-        mods = [None] + sorted(set(re.findall(r"^\s*pub mod (\w+) \{", text, re.M)))
+        mods = [None] + module_paths_with_canaries(text)
         ok_fail = 0
         verified = []
         for m in mods:
@@ -297,6 +302,23 @@ def verify_slice(name, tier):
     return r
 
 
+def module_paths_with_canaries(text):
+    """full paths (a::b) of the inline modules that contain a canary fn"""
+    out, stack, depth = [], [], 0
+    for line in text.split("\n"):
+        m = re.match(r"\s*pub mod (\w+) \{", line)
+        if m:
+            stack.append((m.group(1), depth))
+        if "fn canary_" in line and stack:
+            p = "::".join(n for n, _ in stack)
+            if p not in out:
+                out.append(p)
+        depth += line.count("{") - line.count("}")
+        while stack and depth <= stack[-1][1]:
+            stack.pop()
+    return out
+
+
 def load_known():
     p = os.path.join(VERIF, "known_findings.jsonl")
     out = []
@@ -309,7 +331,7 @@ def load_known():
 
 
 def write_replay(prop, obl, witness):
-    d = os.path.join(VERIF, "replay")
+    d = os.environ.get("VERIF_REPLAY_DIR", os.path.join(VERIF, "replay"))
     os.makedirs(d, exist_ok=True)
     fn = os.path.join(d, "%s-%s.json" % (prop, re.sub(r"[^A-Za-z0-9_.-]+", "_", obl["id"])[:120]))
     json.dump(dict(property=prop, obligation=obl["id"], function=obl["function"], message=obl["message"],
@@ -321,12 +343,12 @@ def write_replay(prop, obl, witness):
 def build_replay_tool():
     """(re)build the replay tool against /repo's current working tree (cargo is incremental)"""
     d = os.path.join(VERIF, "tools", "replay")
-    env = dict(os.environ, CARGO_NET_OFFLINE="true", CARGO_TARGET_DIR=os.path.join(BUILD, "replay-target"))
+    env = dict(os.environ, CARGO_NET_OFFLINE="true", CARGO_TARGET_DIR=os.path.join(TOOLS, "replay-target"))
     try:
         p = subprocess.run(["cargo", "build", "--release", "--offline"], cwd=d, env=env, capture_output=True, text=True, timeout=1200)
     except subprocess.TimeoutExpired:
         return None
-    tool = os.path.join(BUILD, "replay-target", "release", "replay")
+    tool = os.path.join(TOOLS, "replay-target", "release", "replay")
     if p.returncode != 0 or not os.path.exists(tool):
         log("replay tool did not build:", p.stderr[-500:])
         return None
@@ -479,8 +501,9 @@ def main(argv):
         wall_s=round(wall, 2),
         violations=len(new_fail),
     )
-    os.makedirs(os.path.join(VERIF, "evidence"), exist_ok=True)
-    json.dump(ev, open(os.path.join(VERIF, "evidence", prop + ".json"), "w"), indent=1)
+    evdir = os.environ.get("VERIF_EVIDENCE_DIR", os.path.join(VERIF, "evidence"))  # scratch dir for self-tests
+    os.makedirs(evdir, exist_ok=True)
+    json.dump(ev, open(os.path.join(evdir, prop + ".json"), "w"), indent=1)
 
     for o in known_hit:
         print("KNOWN-FINDING: property=%s %s (%s)" % (prop, known_ids[o["id"]].get("what", o["id"]), o["id"]))
@@ -490,7 +513,7 @@ def main(argv):
     rc = 0
     if new_fail:
         for o in new_fail:
-            w = witness_search(prop, o, tier)
+            w = o.get("witness") or witness_search(prop, o, tier)
             fn = write_replay(prop, o, w)
             log("failed obligation:", o["id"], "--", o["message"], "at", o["where"])
             print("VIOLATION property=%s replay=%s%s" % (prop, fn, "" if w else " no-failing-input-found"))
